@@ -109,6 +109,9 @@ def _close(a, b, tol):
         return True
     if a == b:
         return True
+    big, tiny = 1e300, 1e-290
+    if (abs(a) > big and abs(b) > big and (a > 0) == (b > 0)) or (abs(a) < tiny and abs(b) < tiny):
+        return True       # at the overflow / underflow edge exp() implementations legitimately differ (inf vs 1.7e308, 0 vs denormal)
     if math.isinf(a) or math.isinf(b) or a != a or b != b:
         return False
     return abs(a - b) <= tol * max(abs(a), abs(b))
@@ -154,6 +157,9 @@ def extra_oracles(op, rep, refrep, fresh, st, plan, now):
         vals = _plain_list(tree["d"][1][1]) if isinstance(tree, dict) and "d" in tree and len(tree["d"]) > 1 else []
         for (x, t), pair in zip(op.get("grid") or [], vals):
             _, mag = _fn_eval(f, x, t)
+            if pair is not None and all(isinstance(v, float) for v in pair) and (
+                    max(abs(pair[0]), abs(pair[1])) > 1e290 or pair[0] != pair[0] or pair[1] != pair[1]):
+                continue      # f or f*c left the finite range: (alpha*c)*exp(e) and c*(alpha*exp(e)) overflow at different points
             st["mul_checks"] += 1
             if pair is None or not _close(pair[1], c * pair[0], _tol(mag)):
                 raise Violation("C16.form", op, {"note": "(f*c)(x,T) != c*f(x,T)", "x": x, "T": t, "f": pair and pair[0], "f_times_c": pair and pair[1], "c": c})
